@@ -25,7 +25,7 @@ def relocate(rng, data):
             k = ''.join(c for c in old.rsplit('/', 1)[-1].split('.')[0] if not c.isdigit())
             kinds.setdefault(k, []).append((old, new))
         if all([n for _, n in sorted(v)] == sorted(n for _, n in v) for v in kinds.values()): return out, moved
-    return out, moved
+    raise RuntimeError('no order-preserving relocation drawn in 60 tries')      # the caller skips the variant
 
 
 def _relocate(rng, data):
